@@ -383,6 +383,12 @@ class FunctionFlow:
         else:
             return st
         d = self._newdef(name, stmt, value, kind, extra)
+        if kind == "unpack" and isinstance(extra, tuple) and extra[0] is not None:
+            value = ast.Subscript(value=extra[0], slice=ast.Constant(extra[1]), ctx=ast.Load())
+            ast.copy_location(value, extra[0])
+            ast.fix_missing_locations(value)
+            d.value = value
+            kind = d.kind = "assign"
         if value is not None and kind in ("assign", "aug"):
             xv = self.expand(value, st)
             d.xvalue = xv
@@ -397,11 +403,65 @@ class FunctionFlow:
             del st.defs[k]
         return st
 
-    def _mkfacts(self, test: ast.AST, pol: bool, st: State, line: int) -> list:
+    def _inline_predicate(self, call: ast.Call, depth: int = 2):
+        """Body of a repository predicate `def f(...): return <expr>` with parameters replaced by the (expanded)
+        arguments; None when the callee is not of that shape."""
+        if depth <= 0 or not isinstance(call, ast.Call):
+            return None
+        tg = [t for t in self.prog.call_targets(self.fi, call, count=False, cha=False) if isinstance(t, FuncInfo)]
+        if len(tg) != 1:
+            return None
+        callee = tg[0]
+        body = [b for b in callee.node.body if not (isinstance(b, ast.Expr) and isinstance(b.value, ast.Constant))]
+        locs = {}
+        for b in body[:-1]:
+            if isinstance(b, ast.Assign) and len(b.targets) == 1 and isinstance(b.targets[0], ast.Name):
+                locs[b.targets[0].id] = b.value
+            else:
+                return None
+        if not body or not isinstance(body[-1], ast.Return) or body[-1].value is None:
+            return None
+        params = callee.params
+        off = 1 if callee.kind in ("method", "classmethod") and params else 0
+        amap = {}
+        for i, a in enumerate(call.args):
+            if i + off < len(params):
+                amap[params[i + off]] = a
+        for kw in call.keywords:
+            if kw.arg:
+                amap[kw.arg] = kw.value
+        if off and callee.kind == "method" and isinstance(call.func, ast.Attribute):
+            amap[params[0]] = call.func.value
+        if callee.kind == "classmethod":
+            amap.pop(params[0], None)
+
+        class S(ast.NodeTransformer):
+            def visit_Name(s2, n):
+                if n.id in locs:
+                    return s2.visit(copy.deepcopy(locs[n.id]))
+                if n.id in amap:
+                    return copy.deepcopy(amap[n.id])
+                return n
+        unbound = [p_ for p_ in params[off:] if p_ not in amap]
+        if unbound:
+            return None
+        return S().visit(copy.deepcopy(body[-1].value))
+
+    def _mkfacts(self, test: ast.AST, pol: bool, st: State, line: int, _depth: int = 2) -> list:
         out = []
         for node, p in cond_atoms(test, pol):
             xn = self.expand(node, st)
             out.append(Fact("cond", node, p, xn, (), line))
+            if isinstance(xn, ast.Call) and _depth > 0:
+                inl = self._inline_predicate(xn, _depth)
+                if inl is not None:
+                    for n2, p2 in cond_atoms(inl, p):
+                        out.append(Fact("cond", n2, p2, n2, (), line))
+                        if isinstance(n2, ast.Call) and _depth > 1:
+                            inl2 = self._inline_predicate(n2, _depth - 1)
+                            if inl2 is not None:
+                                for n3, p3 in cond_atoms(inl2, p2):
+                                    out.append(Fact("cond", n3, p3, n3, (), line))
             # expanded atoms may normalise further (e.g. x = a is None; if x)
             if unparse(xn) != unparse(node):
                 for n2, p2 in cond_atoms(xn, p):
@@ -836,8 +896,10 @@ class Flows:
                     continue
                 if head == "self" and same_self:
                     continue
-                if "@" not in head and head not in caller_locals and self.prog.resolve_name(caller.module, head) is not None:
-                    continue   # module-level constant / class / enum
+                if "@" not in head and head not in caller_locals and (
+                        self.prog.resolve_name(caller.module, head) is not None or head in caller.module.imports
+                        or hasattr(__import__("builtins"), head)):
+                    continue   # module-level constant / class / enum / imported name / builtin
                 ok = False
                 break
             if ok:
